@@ -1,6 +1,13 @@
 """Registry of claimed checks; tools/gen_manifest.py renders MANIFEST.json from it."""
-CHECKS = []
 _PENDING = "check under construction in this build phase (see DESIGN.md section 5); not claimed until its obligations discharge on the unchanged tree"
-NOT_APPLICABLE = [{"property_id": "C%02d" % i, "reason": _PENDING} for i in range(1, 21)]
+
+CHECKS = [
+    {"property_id": "C12", "category": "proof", "design_ref": "DESIGN.md section 5, C12",
+     "text": "bins.bins is executed symbolically from its real AST (loop over the real OFFSETS unrolled, so loop-free) for both coordinate conventions and one=True/False over unbounded mathematical integers; every feasible path is proved against the specification taken from the statement (out-of-range -> 1 / {1}, exact level formula, exact bin set, extent containment, finest level, int result), the nesting lemma is proved over the specification, and Feature.calc_bin / astuple()[11] / helpers._bin_from_dict are proved against the bins contract. A complete proof for all integers; a boundary-grid run-time stand-in of the same clauses is reported separately as bounded.",
+     "level_note": "trusted: pyvc symbolic semantics of the Python subset (T1), z3 (T2), the specification contracts/spec_bins.py; assumed: Python ints are mathematical, x>>k == floor(x/2**k)",
+     "technique": "contract-based deductive verification: VCs generated from the real AST by symbolic execution (pyvc), discharged by z3; counterexamples replayed on the real function"},
+]
+_claimed = {c["property_id"] for c in CHECKS}
+NOT_APPLICABLE = [{"property_id": "C%02d" % i, "reason": _PENDING} for i in range(1, 21) if "C%02d" % i not in _claimed]
 NOTES = ("Contract-based deductive verification of the real gffutils code (engine pyvc). "
          "Exit codes of ./check: 0 held, 1 violation (VIOLATION line), 2 undecided, 3 checker crash.")
